@@ -5,7 +5,8 @@
     statements, blocks, if / else-if chains, expression switches (tagged or tag-less, with or without an
     init statement, yields in any case), all for-loop forms (init / cond / post present or absent, yields
     in init, body and post), break / continue / return at any position, arbitrary nesting - provided
-    it has no `fallthrough` statement: the per-function pipeline pass0 → pass2 → pass3 returns a result.
+    it has no `fallthrough` statement and no yield in an if initialiser (both rejected with a diagnostic):
+    the per-function pipeline pass0 → pass2 → pass3 returns a result.
     No assertion of the rewriter's block bookkeeping fires (`Ready` / `Inv` invariants), the copy of
     go/types' termination checker never panics, pass3 finds a target for every branch statement.
     The theorem holds for every tree whose five defect flags are off (`QOk`), in particular for
